@@ -253,7 +253,7 @@ PLANS["C11"] = {
             "invariants": ["StreamingEqualsWhole", "NothingLost", "Emit"], "ports": ports({"bytes": 1}, {"bytes": 1})},
            {"module": "MCUtf8", "model": "utf8-deep", "kind": "bytes", "constants": {"MaxLen": {"quick": 4, "thorough": 5}}, "emit": False,
             "invariants": ["StreamingEqualsWhole", "NothingLost"], "ports": ports({"bytes": 1}, {"bytes": 1}), "workers": 8},
-           {"module": "MCUtf8Abs", "model": "utf8-class-sweep", "kind": "bytes", "tiers": ("thorough",),
+           {"module": "MCUtf8Abs", "model": "utf8-class-sweep", "kind": "bytes", "constants": {"RepTailsOnly": {"quick": "TRUE", "thorough": "FALSE"}},
             "invariants": ["TailsAreOK", "StepKeepsTailOK", "ClassAbstractionSound", "StepAccountsForByte", "Emit"], "ports": ports({"bytes": 1}, {"bytes": 1}), "workers": 4}],
     "gen": [gen("recsoup", 400, 12000, port="bytes", chars=60), gen("soup", 200, 6000), gen("captured", 7, 70, maxbytes=1200)],
     "rule": "byte strings with well-formed 1-4 byte forms, overlongs, surrogates, > U+10FFFF, stray continuation bytes, truncated sequences, "
